@@ -214,7 +214,7 @@ fn main() {
         } else {
             let total = budget(g, n, thorough);
             let mine = (total + chunks - 1 - c) / chunks;
-            let special = [Fam::Symmetric, Fam::PlantedSym, Fam::Vacuous, Fam::Shannon, Fam::NearConst, Fam::Projection, Fam::Const];
+            let special = [Fam::GatedPartSym, Fam::Symmetric, Fam::PlantedSym, Fam::FewMinterms, Fam::Vacuous, Fam::Shannon, Fam::NearConst, Fam::Projection, Fam::Const];
             for i in 0..mine {
                 let r = c + i * chunks; // global index: the pattern is spread over the chunks
                 let (fam, tag) = match r % 2 {
@@ -226,6 +226,22 @@ fn main() {
                 };
                 let f = gen::gen(fam, n, &mut rng);
                 both_rng(ctx, n, g, &f, tag, true, Some(&mut rng));
+            }
+            // symmetries that hold in one cofactor only (x_c & g, x_c ? g : h with h symmetric in a pair): extra
+            // events for the sizes whose budget is small
+            if n >= 7 {
+                let extra = match (g, n) {
+                    (Group::Npn, 7) => 12,
+                    (Group::Npn, _) => 6,
+                    _ => 12,
+                } * if thorough { 20 } else { 1 };
+                for i in 0..extra {
+                    if i % chunks != c {
+                        continue;
+                    }
+                    let f = gen::gen(Fam::GatedPartSym, n, &mut rng);
+                    both_rng(ctx, n, g, &f, Fam::GatedPartSym.name(), false, None);
+                }
             }
             // functions of three variables on triples of variables (sparse regular tables with many ties
             // between orbit members): every function for N and P at n = 7 (8 in thorough), sampled for NPN
